@@ -1375,15 +1375,16 @@ def selftest():
         return vlib.tlc("DaySweep.tla", cfg, env={"TRACE": df})
     r0 = ds(lines)
     base_ok = bool(r0.tagged("ACCEPTED")) and not r0.tagged("MISMATCH")
-    sw = list(lines)
-    sw[5], sw[6] = sw[6], sw[5]
-    r1 = ds(sw)
+    # a record claiming to be about another day (records are judged per day; gaps only re-seed the walker)
+    wrongday = json.loads(lines[5])
+    wrongday["n"] += 1000
+    r1 = ds(lines[:5] + [json.dumps(wrongday)] + lines[6:])
     swapped_flagged = bool(r1.tagged("MISMATCH")) or bool(r1.tagged("REJECTED"))
     rec = json.loads(lines[10])
     rec["dow"] = rec["dow"] % 7 + 1
     r2 = ds(lines[:10] + [json.dumps(rec)] + lines[11:])
     field_flagged = any(["dow", 0] in m[3]["#set"] for m in r2.tagged("MISMATCH"))
-    print("selftest DaySweep: clean accepted:", base_ok, " swapped records flagged:", swapped_flagged, " corrupted weekday flagged:", field_flagged)
+    print("selftest DaySweep: clean accepted:", base_ok, " record about the wrong day flagged:", swapped_flagged, " corrupted weekday flagged:", field_flagged)
     ok &= base_ok and swapped_flagged and field_flagged
     shutil.rmtree(wd, ignore_errors=True)
     return 0 if ok else 1
